@@ -245,9 +245,12 @@ def script(spec):
     lines.append('init 0 %d %d' % (sid, spec.get('flags', 0)))
     lines.append('parse_buf 0 %s' % hx(spec['text']))
     lines.append('dump 0')
+    stale = zlib.crc32(spec['seed'].encode()) % 4 == 0      # a quarter of the trees: every lookup starts with a stale ERANGE in errno
     for q in spec['q']:
         p = hx(q['path'])
         lines.append('note q')
+        if stale:
+            lines.append('set_errno 34')
         if q['steps'] is not None:
             st = ' '.join('%s %s %s' % (hx(s[0]), s[1], hx(s[2]) if s[1] == 't' else s[2]) for s in q['steps'])
             lines.append('step 0 %s %d %s' % (q['kind'], len(q['steps']), st))
